@@ -37,6 +37,9 @@ CHECKS = {
  "C04": dict(level="proof", enum=True, ref="7/C04", technique="contract-based deductive verification at YAML-tree level: parse(dump(parse(t))) compared field by field with parse(t), dump repeatable, for document templates with symbolic numbers; bounded leg through the real YAML text",
    text="For every module/net template of C05 with symbolic numbers: the written tree is accepted by the reader, the reloaded design equals the original field by field (kind flags incl. flip, per-region areas, centre, aspect-ratio bounds, rectangles with regions in order, net members and weights - including weight exactly 1), writing the reloaded design and writing twice give the identical tree. The text layer is assumed (ruamel: tree -> text -> same tree) and exercised on random concrete documents in a bounded leg.",
    note=BASE + "; templates bounded (<= 2 rectangles per module, <= 5 modules); ruamel.yaml assumed to round-trip trees of dict/list/str/number/bool"),
+ "C03": dict(level="proof", ref="7/C03", technique="contract-based deductive verification: per (cell, module) contract of Allocation.initial_allocation / _detect_fixed_rectangles on an arbitrary cell (FLATMAP loop shape checked on the AST), squares by the sqrt axiom, callees replaced by their C18/C06 contracts; bounded end-to-end template through the real constructors",
+   text="For an arbitrary refinable cell (ground or specialised region, all coordinates symbolic) and netlists of soft modules without rectangles (square of the module's area around its centre), soft/hard modules with 1-2 rectangles: the cell's occupancy map is exactly {m: covered fraction}, a module is listed iff it covers part of the cell or zero entries are requested; a fixed module fully owns exactly its own cell ({m: 1.0}, depth 0) and is not listed elsewhere; partially covered or missing fixed cells are rejected; create_squares. End-to-end through the real Die/Allocation constructors on a bounded template.",
+   note=BASE + "; the outer loop is lifted by its FLATMAP shape; 'area allocated = area of the shape on the cells' follows from the per-cell ratios by linearity given the module's rectangles are pairwise disjoint (argument, proved only on the end-to-end template); netlists bounded (<= 2 modules, <= 2 rectangles)"),
 }
 
 PENDING = {}
